@@ -14,6 +14,7 @@ def gen_cases(rng, tier):
     out = []
     for cls in CLASSES:
         sels, sorts = rules_for(cls)
+        badsel, badsort = bad_rules_for(cls)
         for h in range(per):
             n, nev, ncv = legal_cfg(rng, cls, 14 if tier == 'quick' else 26)
             shifty = 'Shift' in cls
@@ -24,8 +25,12 @@ def gen_cases(rng, tier):
             final = [start, 'C:%d:%d:%s:%d' % (rng.choice(sels), rng.choice([0, 1, 3, 1000]), rng.choice(['1e-10', '1e-4']), rng.choice(sorts))]
             prefix = []
             for j in range(rng.range(1, 3)):
-                k = rng.below(5)
-                if k == 0:
+                k = rng.below(7)
+                if k == 5:      # a run that throws at its very end: legal SortRule value that is not a supported sorting rule
+                    prefix += ['I', 'C:%d:%d:%s:%d' % (rng.choice(sels), rng.choice([0, 2, 1000]), '1e-10', rng.choice(badsort))]
+                elif k == 6:    # a run that throws from inside the iteration: unsupported selection rule
+                    prefix += ['I', 'C:%d:%d:%s:%d' % (rng.choice(badsel), rng.choice([2, 1000]), '1e-10', rng.choice(sorts))]
+                elif k == 0:
                     prefix.append('I')
                 elif k == 1:
                     prefix.append('V:r%d' % rng.below(1000))
@@ -44,7 +49,8 @@ def gen_cases(rng, tier):
 def run(ck, replay=None):
     rng = Rng(ck.seed)
     ck.rule = ('pairs (fresh solver, reused solver) on the same operator/arguments; the reused object first runs a prefix of 1..6 other calls '
-               '(init, init(v), init(zero vector) [throws], full compute with other arguments, compute interrupted by an injected operator fault); '
+               '(init, init(v), init(zero vector) [throws], full compute with other arguments, compute interrupted by an injected operator fault, compute with a legal but '
+               'unsupported sorting rule [throws at the very end] or selection rule [throws inside the iteration]); '
                'all 11 classes; outcome compared bit for bit; operator probed before/after; non-trivial = prefix contains a compute or a throwing call')
     st = regen()
     g = st.get('GlueGen.v', {'ok': False, 'error': 'not generated'})
@@ -91,7 +97,7 @@ def run(ck, replay=None):
             oa = [observe(s) for s in a['steps'][-k:]]
             ob = [observe(s) for s in b['steps'][-k:]]
             oa2 = [observe(s) for s in a2['steps'][-k:]]
-            nontriv = any(x in c[2] for x in ('C:', 'zero', 'F:'))
+            nontriv = any(x in c[2].split('ops=')[1].rsplit(';', 2)[0] for x in ('C:', 'zero', 'F:'))
             ck.count(c[2], nontriv)
             if oa != oa2:
                 badc.append((c, 'two fresh runs differ'))
